@@ -252,8 +252,21 @@ EXTRA_MIN = {
     "C14": {"wide_cases": 6, "stream_items_checked": 10000},
     "C15": {"identifier_reuse_cases": 60, "cancel_then_resume_cases": 60, "wide_cases": 6, "late_acks_for_cancelled_ops": 100000},
     "C16": {"burst_cases": 20, "variant_runs": 3000},
-    "C17": {"connections_cut_by_write_error": 5000, "wide_cases": 8, "resumptions_with_connack_receive_maximum": 1500},
+    "C17": {"connections_cut_by_write_error": 5000, "wide_cases": 8, "resumptions_with_connack_receive_maximum": 1500, "broken_resumption_cases": 20},
 }
+# round 8
+for _cid, _m in {
+    "C02": {"refusing_connacks_without_subscription_identifier_support": 100},
+    "C03": {"long_runs_of_small_packets": 10},
+    "C05": {"identifier_wrap_cases": 25},
+    "C07": {"partially_refused_subscription_cases": 12},
+    "C08": {"ack_write_failure_cases": 18},
+    "C09": {"expired_session_cases": 5},
+    "C12": {"oversized_requests_with_a_publish_in_flight": 80},
+    "C13": {"inbound_traffic_sequences": 500},
+    "C14": {"dropped_in_mid_write_cases": 40},
+}.items():
+    EXTRA_MIN.setdefault(_cid, {}).update(_m)
 for _cid, _m in EXTRA_MIN.items():
     for _tier in ("quick", "thorough"):
         CHECKS[_cid]["min_observed"].setdefault(_tier, {})
